@@ -26,6 +26,11 @@ def each(fn, coll, elem, tx, doc=None, extra=None):
     return dict(kind='each', fn=fn, coll=coll, elem=elem, tx=tx, doc=doc, extra=extra)
 
 
+def ext(fn, include, spec, unit):
+    """rule whose contract is proved in a hand-written unit; `spec` is defined in the shared include"""
+    return dict(kind='ext', fn=fn, include=include, spec=spec, unit=unit)
+
+
 def stub(fn, why, ret='vec'):
     return dict(kind='stub', fn=fn, why=why, ret=ret)
 
@@ -158,7 +163,7 @@ hint start
         each('validate_c9_zero_amount', 'transactions', 'MT101Transaction',
              'if zero_amount(t) { if has_equi(t) { one_if(t.field_33b.is_none(), "E54"@) } else { one_if(t.field_33b.is_some(), "E54"@) + one_if(t.field_21f.is_some(), "E54"@) } } else { seq![] }',
              doc='C9 (E54): amount zero & 23E EQUI => 33B mandatory; amount zero & no EQUI => 33B and 21F not allowed'),
-        stub('validate_field_23e', 'HashSet / nested code-table loops'),
+        ext('validate_field_23e', 'inc/mt101_23e_spec.vu', 'm101_23e_spec', 'rules_mt101_23e'),
     ])
 
 
@@ -169,7 +174,13 @@ def _any_b(T, Tx, f):
 # ---- MT104 (direct debit): presence rules between sequence A and the occurrences of sequence B
 _B104 = [('21e', 'field_21e'), ('26t', 'field_26t'), ('52a', 'field_52'), ('71a', 'field_71a'), ('77b', 'field_77b')]
 TYPES['104'] = dict(
+    consts=['MT104_VALID_23E_CODES_SEQ_A', 'MT104_VALID_23E_CODES_SEQ_B', 'CODE_WITH_ADDITIONAL_INFO'],
     preamble='''
+/// field 23E of one sequence: T47 when the code is not in the list allowed there, D81 when the narrative subfield is used with a code other than OTHR
+pub open spec fn f23e_codes(f: Field23E, allowed: Seq<&'static str>) -> Seq<Seq<char>> {
+    one_if(!lits_contain(allowed, f.instruction_code@), "T47"@) + one_if(f.additional_info.is_some() && f.instruction_code@ != "OTHR"@, "D81"@)
+}
+pub open spec fn f23e_a_spec(m: &MT104) -> Seq<Seq<char>> { if m.field_23e.is_some() { f23e_codes(m.field_23e.unwrap(), seq!["AUTH", "NAUT", "OTHR", "RFDD", "RTND"]) } else { seq![] } }
 pub open spec fn any_b(m: &MT104, p: spec_fn(MT104Transaction) -> bool) -> bool { exists|i: int| 0 <= i < m.transactions@.len() && p(#[trigger] m.transactions@[i]) }
 pub open spec fn any_cred(m: &MT104) -> bool { exists|i: int| 0 <= i < m.transactions@.len() && (#[trigger] m.transactions@[i]).creditor_tx.is_some() }
 pub open spec fn all_cred(m: &MT104) -> bool { m.transactions@.len() > 0 && forall|i: int| 0 <= i < m.transactions@.len() ==> (#[trigger] m.transactions@[i]).creditor_tx.is_some() }
@@ -248,8 +259,12 @@ hint start
         stub('validate_c10_field_19_amount', 'no oracle written yet', ret='opt'),
         stub('validate_c11_currency_consistency', 'no oracle written yet'),
         stub('validate_c12_rfdd_comprehensive', 'no oracle written yet'),
-        stub('validate_field_23e_seq_a', 'code tables / HashSet'),
-        stub('validate_field_23e_seq_b', 'code tables / HashSet'),
+        vec('validate_field_23e_seq_a', 'f23e_a_spec', extra='hint start\n  broadcast use group_codes;\nfmtcat *',
+            doc='23E in sequence A: T47 unless AUTH, NAUT, OTHR, RFDD, RTND; D81 when additional information is used with a code other than OTHR'),
+        each('validate_field_23e_seq_b', 'transactions', 'MT104Transaction',
+             'if t.field_23e.is_some() { f23e_codes(t.field_23e.unwrap(), seq!["AUTH", "NAUT", "OTHR"]) } else { seq![] }',
+             doc='23E in sequence B: T47 unless AUTH, NAUT, OTHR; D81 when additional information is used with a code other than OTHR',
+             extra='body replace "for (idx, transaction) in self.transactions.iter().enumerate()" => "for transaction in &self.transactions"\nbody replace "idx + 1," => "0usize,"\nfmtcat *'),
     ])
 
 # ---- MT110: cheque advice
@@ -300,7 +315,16 @@ TYPES['935'] = dict(
 
 # ---- MT107 (general direct debit): the presence rules parallel to MT104
 TYPES['107'] = dict(
+    consts=['MT107_VALID_23E_CODES'],
     preamble='''
+/// field 23E of one sequence: T47 unless AUTH, NAUT, OTHR, RTND; D81 when the narrative subfield is used with a code other than OTHR
+pub open spec fn f23e_codes(f: Option<Field23E>) -> Seq<Seq<char>> {
+    if f.is_some() { one_if(!lits_contain(seq!["AUTH", "NAUT", "OTHR", "RTND"], f.unwrap().instruction_code@), "T47"@) + one_if(f.unwrap().additional_info.is_some() && f.unwrap().instruction_code@ != "OTHR"@, "D81"@) } else { seq![] }
+}
+pub open spec fn f23e_fold(acc: Seq<Seq<char>>, v: Seq<MT107Transaction>, n: int) -> Seq<Seq<char>>
+    decreases n
+{ if n <= 0 { acc } else { f23e_fold(acc, v, n - 1) + f23e_codes(v[n - 1].field_23e) } }
+pub open spec fn f23e_spec(m: &MT107) -> Seq<Seq<char>> { f23e_fold(f23e_codes(m.field_23e), m.transactions@, m.transactions@.len() as int) }
 pub open spec fn any_cred(m: &MT107) -> bool { exists|i: int| 0 <= i < m.transactions@.len() && (#[trigger] m.transactions@[i]).creditor_tx.is_some() }
 pub open spec fn all_cred(m: &MT107) -> bool { m.transactions@.len() > 0 && forall|i: int| 0 <= i < m.transactions@.len() ==> (#[trigger] m.transactions@[i]).creditor_tx.is_some() }
 pub open spec fn any_23e(m: &MT107) -> bool { exists|i: int| 0 <= i < m.transactions@.len() && (#[trigger] m.transactions@[i]).field_23e.is_some() }
@@ -379,7 +403,15 @@ hint start
              doc='C7 (D75): 33B present and currencies differ => 36 mandatory; otherwise 36 not allowed'),
         stub('validate_c8_sum_of_amounts', 'floating point sum'),
         stub('validate_c9_currency_consistency', 'no oracle written yet'),
-        stub('validate_field_23e', 'code tables / HashSet'),
+        vec('validate_field_23e', 'f23e_spec', doc='23E in sequence A and in every sequence B: T47 unless AUTH, NAUT, OTHR, RTND; D81 when additional information is used with a code other than OTHR',
+            extra='''body replace "for (idx, transaction) in self.transactions.iter().enumerate()" => "for transaction in &self.transactions"
+body replace "idx + 1," => "0usize,"
+fmtcat *
+loop 0 iter=it
+  invariant codes(errors@) == f23e_fold(f23e_codes(self.field_23e), self.transactions@, it.index@ as int)
+hint start
+  broadcast use group_codes;
+'''),
     ])
 
 
